@@ -731,6 +731,176 @@ Section ReplyObject.
     destruct (code_ok c); [|reflexivity].
     rewrite set_message_chk_total. reflexivity.
   Qed.
+
+  (* ---------- any sequence of setter operations ---------- *)
+  Hypothesis Hd245 : forall k, is245 k = true -> udigit k = true.
+
+  Definition esc_wf (e : esc) : Prop :=
+    match e with
+    | EscSome _ subj det => dig13 subj = true /\ dig13 det = true /\ valid_text subj /\ valid_text det
+    | _ => True
+    end.
+  Definition reply_inv (r : reply) : Prop :=
+    ns_head (r_msg r) = true /\ valid_text (r_msg r) /\ esc_wf (r_esc r).
+  (* texts as in C17_roundtrip: valid Unicode, empty or not starting with white space *)
+  Definition rop_ok (o : rop) : Prop :=
+    match o with
+    | ROMsg v => ns_head v = true /\ valid_text v
+    | ROEsc v => valid_text v
+    | _ => True
+    end.
+
+  Lemma drop_space_valid : forall sp, valid_text sp -> valid_text (drop_space sp).
+  Proof.
+    unfold valid_text. induction sp as [|x sp IH]; intros V; [constructor|]. cbn. inversion V; subst.
+    destruct (uspace x); [apply IH; assumption|constructor; assumption].
+  Qed.
+
+  Lemma mep_fwd : forall v k subj det, Reply.match_esc_pattern udigit v = Some (k, subj, det) ->
+    exists tl, v = k :: 46 :: subj ++ 46 :: det ++ tl /\ is245 k = true /\ dig13 subj = true /\ dig13 det = true.
+  Proof.
+    intros v k subj det H. unfold Reply.match_esc_pattern in H.
+    destruct v as [|k0 [|dot s]]; try discriminate.
+    destruct (is245 k0 && (dot =? 46)) eqn:E; [|discriminate].
+    apply andb_true_iff in E. destruct E as [Ek Edot]. apply N.eqb_eq in Edot. subst dot.
+    destruct (take_digits s) as [[subj0 s1]|] eqn:T1; [|discriminate].
+    destruct s1 as [|dot2 s2]; [discriminate|].
+    destruct (N.eqb_spec dot2 46) as [E2|E2]; [subst dot2|discriminate].
+    destruct (take_digits s2) as [[det0 s3]|] eqn:T2; [|discriminate].
+    destruct (at_dollar s3); [|discriminate].
+    inversion H; subst.
+    apply td_fwd in T1. destruct T1 as [A1 [B1 _]]. apply td_fwd in T2. destruct T2 as [A2 [B2 _]].
+    exists s3. subst s s2. repeat split; assumption.
+  Qed.
+
+  Lemma set_message_inv : forall r v, reply_inv r -> ns_head v = true -> valid_text v ->
+    reply_inv (set_message r v).
+  Proof.
+    intros r v [Hn [Hv He]] Hnv Hvv. unfold Reply.set_message.
+    destruct v as [|c v'].
+    { split; [reflexivity|]. split; [constructor|]. cbn [r_esc]. clear He. destruct (r_esc r); exact I. }
+    destruct (if peel_allowed (r_code r) then match_esc (c :: v') else None) as [[[[k subj] det] rest]|] eqn:E.
+    - destruct (peel_allowed (r_code r)); [|discriminate].
+      apply me_fwd in E. destruct E as [w [sp [Ev [Hk [Hs [Hd [Hw Hr]]]]]]].
+      unfold valid_text in Hvv. rewrite Ev in Hvv.
+      inversion Hvv as [|? ? _ Hv1]; subst. inversion Hv1 as [|? ? _ Hv2]; subst.
+      apply Forall_app in Hv2. destruct Hv2 as [Vs Hv3]. inversion Hv3 as [|? ? _ Hv4]; subst.
+      apply Forall_app in Hv4. destruct Hv4 as [Vd Hv5]. inversion Hv5 as [|? ? _ Vsp]; subst.
+      split; [cbn [r_msg]; apply drop_space_head|].
+      split; [cbn [r_msg]; apply drop_space_valid; exact Vsp|].
+      cbn [r_esc esc_wf]. repeat split; assumption.
+    - split; [exact Hnv|]. split; [exact Hvv|]. cbn [r_esc]. clear He. destruct (r_esc r); exact I.
+  Qed.
+
+  Notation rop_step := (Reply.rop_step udigit uspace).
+
+  Lemma rop_step_inv : forall r o, reply_inv r -> rop_ok o -> reply_inv (rop_step r o).
+  Proof.
+    intros r o Hi Ho. unfold Reply.rop_step, Reply.rop_apply.
+    destruct o as [c|v|v|].
+    - unfold Reply.code_setter. destruct (Reply.ctor_code_ok udigit c); exact Hi.
+    - rewrite set_message_chk_total. destruct Ho as [Hn Hv]. apply set_message_inv; assumption.
+    - unfold Reply.esc_setter. destruct Hi as [Hn [Hv He]]. destruct v as [|c v'].
+      + split; [exact Hn|]. split; [exact Hv|exact I].
+      + destruct (Reply.match_esc_pattern udigit (c :: v')) as [[[k subj] det]|] eqn:E; [|repeat split; assumption].
+        apply mep_fwd in E. destruct E as [tl [Ev [Hk [Hs Hd]]]].
+        cbn in Ho. unfold valid_text in Ho. rewrite Ev in Ho.
+        inversion Ho as [|? ? _ Hv1]; subst. inversion Hv1 as [|? ? _ Hv2]; subst.
+        apply Forall_app in Hv2. destruct Hv2 as [Vs Hv3]. inversion Hv3 as [|? ? _ Hv4]; subst.
+        apply Forall_app in Hv4. destruct Hv4 as [Vd _].
+        split; [exact Hn|]. split; [exact Hv|]. cbn [r_esc esc_wf]. repeat split; assumption.
+    - destruct Hi as [Hn [Hv He]]. split; [exact Hn|]. split; [exact Hv|exact I].
+  Qed.
+
+  Lemma rops_inv : forall ops r0, Forall rop_ok ops -> reply_inv r0 -> reply_inv (fold_left rop_step ops r0).
+  Proof.
+    induction ops as [|o ops IH]; intros r0 Hf Hi; [exact Hi|].
+    inversion Hf; subst. cbn [fold_left]. apply IH; [assumption|]. apply rop_step_inv; assumption.
+  Qed.
+
+  Lemma fresh_inv : reply_inv fresh_reply.
+  Proof. split; [reflexivity|]. split; [constructor|exact I]. Qed.
+
+  (* the text an ESC-showing reply shows is a fixed point of the constructor *)
+  Lemma getmsg_fix : forall k c2 T, is245 k = true -> esc_shape k T ->
+    get_message (new_reply (k :: c2) T) = T.
+  Proof.
+    intros k c2 T Hk [subj [det [m [ET [Hs [Hd [Hm Hh]]]]]]].
+    destruct m as [|c0 m']; [contradiction|].
+    subst T. rewrite new_reply_unfold. cbn [peel_allowed]. rewrite Hk.
+    rewrite me_bwd by assumption.
+    rewrite drop_space_id by exact Hh.
+    unfold get_message, get_esc, code_class. cbn [r_code r_esc r_msg hd]. rewrite Hk.
+    cbn [app]. rewrite <- app_assoc. reflexivity.
+  Qed.
+
+  Lemma is245_valid : forall k, is245 k = true -> valid_cp k = true.
+  Proof. intros k H. unfold is245 in H. unfold valid_cp, is_surrogate. lia. Qed.
+
+  Lemma shown_fix : forall r, reply_inv r -> code_2xx_5xx (r_code r) -> r_esc r <> EscFalse ->
+    get_message (new_reply (r_code r) (get_message r)) = get_message r /\
+    ns_head (get_message r) = true /\ valid_text (get_message r).
+  Proof.
+    intros [code e m] [Hn [Hv He]] [k [d2 [d3 [Ec _]]]] Hf. cbn [r_code r_esc r_msg] in *. subst code.
+    destruct (is245 k) eqn:Hk.
+    - destruct m as [|c0 m'].
+      + assert (ET : get_message (mkReply [k; d2; d3] e []) = []).
+        { unfold get_message. cbn [r_msg]. destruct (get_esc _); reflexivity. }
+        rewrite ET. split; [|split; [reflexivity|constructor]].
+        rewrite new_reply_unfold. unfold get_message. cbn [r_msg]. destruct (get_esc _); reflexivity.
+      + assert (Hsh : esc_shape k (get_message (mkReply [k; d2; d3] e (c0 :: m'))) /\
+                      valid_text (get_message (mkReply [k; d2; d3] e (c0 :: m')))).
+        { unfold get_message, get_esc, code_class. cbn [r_code r_esc r_msg hd]. rewrite Hk.
+          pose proof (is245_valid k Hk) as Vk.
+          destruct e as [| |k' subj det]; [|contradiction|].
+          - split.
+            + exists [48], [48], (c0 :: m'). cbn. rewrite Hd48. repeat split; try reflexivity; try discriminate. exact Hn.
+            + unfold valid_text. repeat (constructor; [first [assumption|reflexivity]|]). exact Hv.
+          - destruct He as [Hs [Hd [Vs Vd]]]. split.
+            + exists subj, det, (c0 :: m'). split; [cbn [app]; rewrite <- app_assoc; reflexivity|].
+              repeat split; try assumption. discriminate.
+            + unfold valid_text in *. apply Forall_app. split.
+              * constructor; [assumption|]. constructor; [reflexivity|]. apply Forall_app. split; [assumption|].
+                constructor; [reflexivity|assumption].
+              * constructor; [reflexivity|assumption]. }
+        destruct Hsh as [Hsh Vt]. split; [apply getmsg_fix; assumption|]. split; [|exact Vt].
+        destruct Hsh as [subj [det [m0 [ET _]]]]. rewrite ET. cbn [ns_head].
+        rewrite (Hdisj k (Hd245 k Hk)). reflexivity.
+    - assert (ET : get_message (mkReply [k; d2; d3] e m) = m).
+      { unfold get_message, get_esc, code_class. cbn [r_code r_esc r_msg hd]. rewrite Hk. reflexivity. }
+      rewrite ET. split; [apply getmsg_non245; exact Hk|]. split; assumption.
+  Qed.
+
+  (* after ANY sequence of setter operations: the shown ESC has the class of the current
+     code, and the wire round trip of the object as it stands is exact *)
+  Lemma ops_esc_class : forall ops e, get_esc (Reply.rops_run udigit uspace ops) = Some e ->
+    hd 0 e = code_class (Reply.rops_run udigit uspace ops) /\
+    is245 (code_class (Reply.rops_run udigit uspace ops)) = true.
+  Proof. intros ops e. apply esc_class. Qed.
+
+  Lemma ops_roundtrip : forall ops t buf chunks,
+    Forall rop_ok ops ->
+    code_2xx_5xx (r_code (Reply.rops_run udigit uspace ops)) ->
+    r_esc (Reply.rops_run udigit uspace ops) <> EscFalse ->
+    nonempty_chunks chunks ->
+    buf ++ concat chunks = wire_of (Reply.rops_run udigit uspace ops) ++ t ->
+    exists r' buf' chunks',
+      reply_recv udigit uspace buf chunks = GotReply r' buf' chunks' /\
+      r_code r' = r_code (Reply.rops_run udigit uspace ops) /\
+      get_message r' = norm (get_message (Reply.rops_run udigit uspace ops)) /\
+      buf' ++ concat chunks' = t /\ nonempty_chunks chunks'.
+  Proof.
+    intros ops t buf chunks Hok Hc Hf Hne Hs.
+    set (r := Reply.rops_run udigit uspace ops) in *.
+    assert (Hi : reply_inv r) by (apply rops_inv; [exact Hok|exact fresh_inv]).
+    destruct (shown_fix r Hi Hc Hf) as [Hfix [Hns Hvt]].
+    assert (Hw : wire_of r = wire_of (new_reply (r_code r) (get_message r))).
+    { unfold wire_of. rewrite new_reply_code, Hfix. reflexivity. }
+    rewrite Hw in Hs.
+    destruct (reply_roundtrip (r_code r) (get_message r) t buf chunks Hc Hvt Hns Hne Hs)
+      as [r' [b' [ch' [Hr [Hc' [Hm [Ht Hn']]]]]]].
+    exists r', b', ch'. rewrite Hfix in Hm. repeat split; assumption.
+  Qed.
 End ReplyObject.
 
 (* Examples for the setter chain (ASCII classes): the hypothesis of patterns_agree is
@@ -883,3 +1053,24 @@ Section Sequence.
       cbn [length recv_n]. rewrite R1. rewrite Q1. cbn [map]. unfold shown at 1. rewrite R2, R3. reflexivity.
   Qed.
 End Sequence.
+
+(* Examples for the setter operations (ASCII classes): the handler pattern
+   Reply('250', '2.1.5 Ok') then reply.code = '550' shows 5.1.5; message first, code
+   afterwards; a refused code / ESC leaves the object as it was.  The hypotheses of
+   ops_roundtrip are satisfiable by such a sequence. *)
+Example ops_code_changed_after :   (* code 250; message "2.1.5 Ok"; code 550 *)
+  let r := rops_run adigit aspace [ROCode [50;53;48]; ROMsg [50;46;49;46;53;32;79;107]; ROCode [53;53;48]] in
+  get_esc r = Some [53;46;49;46;53] /\ get_message r = [53;46;49;46;53;32;79;107] /\
+  r_esc r <> EscFalse /\ code_2xx_5xx (r_code r).
+Proof.
+  vm_compute. split; [reflexivity|]. split; [reflexivity|]. split; [discriminate|].
+  exists 53, 53, 48. vm_compute. repeat split; discriminate.
+Qed.
+Example ops_message_first :        (* message "5.7.1 Denied" on a fresh object; code 450 -> 4.7.1; code 354 -> no ESC *)
+  get_esc (rops_run adigit aspace [ROMsg [53;46;55;46;49;32;68]; ROCode [52;53;48]]) = Some [52;46;55;46;49] /\
+  get_esc (rops_run adigit aspace [ROMsg [53;46;55;46;49;32;68]; ROCode [51;53;52]]) = None.
+Proof. vm_compute. split; reflexivity. Qed.
+Example ops_refused_setters :      (* code "650" and ESC "2.1000.1" are refused: nothing changes *)
+  rops_run adigit aspace [ROCode [50;53;48]; ROEsc [50;46;51;46;52]; ROCode [54;53;48]; ROEsc [50;46;49;48;48;48;46;49]]
+  = mkReply [50;53;48] (EscSome 50 [51] [52]) [].
+Proof. vm_compute. reflexivity. Qed.
